@@ -2,4 +2,5 @@ pub mod ctx;
 pub mod grammar;
 pub mod jsx;
 pub mod sem;
+pub mod types;
 pub mod opts;
